@@ -69,3 +69,25 @@ package log
 //@   ensures {C20} samedb: store.currentDatabase == old(store.currentDatabase)
 //@   ensures others: forall r Ref :: r != ref(store.rw) ==> $fcontent[r] == old($fcontent[r])
 //@   modifies $fcontent, $fpos, $fdurable
+
+// A new store has no current database, so the first write of a process always emits a SELECT marker. The option functions
+// (WithClock, WithStrategy, WithReadWriter, WithDirectory, WithHandleCommandFunc) set only the field they are named after.
+//@ func NewAppendStore props C02,C20
+//@   dyncalls options modifies Store.clock, Store.strategy, Store.rw, Store.directory, Store.handleCommand
+//@   ensures {C02,C20} nodb: result1 == nil ==> result0 != nil && result0.currentDatabase == 0 - 1
+// ... which is proved for each of them:
+//@ func WithClock$1 props C02
+//@   requires store != nil
+//@   modifies store.clock
+//@ func WithStrategy$1 props C02
+//@   requires store != nil
+//@   modifies store.strategy
+//@ func WithReadWriter$1 props C02
+//@   requires store != nil
+//@   modifies store.rw
+//@ func WithDirectory$1 props C02
+//@   requires store != nil
+//@   modifies store.directory
+//@ func WithHandleCommandFunc$1 props C02
+//@   requires store != nil
+//@   modifies store.handleCommand
